@@ -19,6 +19,7 @@ pub fn dispatch(line: &str) -> String {
         "parse" => lang::parse(rest),
         "compile" => lang::compile(rest),
         "eval" => lang::eval(rest),
+        "vmrun" => lang::vmrun(rest),
         "builtin" => builtin::run(rest),
         _ => format!("bad-op {}", op),
     }
